@@ -303,7 +303,8 @@ class BufferCursor(Cursor):
         return result
 
     def _matchre_fast(self, pattern: str | re.Pattern | None) -> bool:
-        if not (match := self._scanre(pattern)):
+        if not (match := self._scanre(pattern)) or not match.group():
+            # NOTE: an empty match is no progress
             return False
 
         self.move(len(match.group()))
@@ -641,7 +642,8 @@ class Buffer(Text):
         return token
 
     def _matchre_fast(self, pattern: str | re.Pattern | None) -> bool:
-        if not (match := self._scanre(pattern)):
+        if not (match := self._scanre(pattern)) or not match.group():
+            # NOTE: an empty match is no progress
             return False
 
         self.move(len(match.group()))
